@@ -562,6 +562,18 @@ def discharge(an, f, s, reach_feasible=None):
                         return True, "range %s..%s inside length %s" % (_fmt(s0), _fmt(e0), _fmt(ln))
                     if kind_ == "from" and s0 and s0[1] <= ln[0]:
                         return True, "range start %s <= length %s" % (_fmt(s0), _fmt(ln))
+                # relational: `..len / k` and `len / k..` of the collection's own length
+                try:
+                    from .rules.c14 import sym as _sym
+                    base_sym = _sym(f, args[0])
+                    for x in f.copy_chain(op_local(args[1])):
+                        for d in f.defs(x):
+                            if d["kind"] == "assign" and d["rv"][0] == "agg" and d["rv"][1].get("adt") in ("core::ops::range::RangeTo", "core::ops::range::RangeFrom"):
+                                e = _sym(f, d["rv"][2][0])
+                                if e[0] == "bin" and e[1] == "Div" and e[2] == ("len", base_sym) and e[3][0] == "k" and e[3][1] >= 1:
+                                    return True, "range bound is the collection's own length divided by %d" % e[3][1]
+                except Exception:
+                    pass
                 # relational: `..e` with e <= len(collection) by a dominating comparison on the same quantities
                 for x in f.copy_chain(op_local(args[1])):
                     for d in f.defs(x):
@@ -696,6 +708,26 @@ def check_requires(prog, site_func, site, req):
                 edges += c["pass_edges"]
         if edges and f.must_cross([site["bb"]], cut_edges=edges):
             return True, "behind the Ok edge of %s()?" % req["callee_name"]
+        # `check(..).map(|()| site)` / `.and_then(|..| site)`: the site sits in a closure that Result::map / and_then
+        # runs only on the Ok value of that call
+        if "{closure" in f.key:
+            from .patterns import closure_site
+            cs = closure_site(prog, f)
+            if cs:
+                parent, st = cs
+                cl_local = st["p"][0]
+                for bi, t in parent.calls():
+                    c = callee_of(t) or {}
+                    if parent.is_cleanup(bi) or c.get("name") not in ("map", "and_then") or c.get("krate") != "core" or \
+                            "result::Result" not in str(c.get("def", "")) or len(t["a"]) != 2:
+                        continue
+                    if op_local(t["a"][1]) is None or cl_local not in parent.copy_chain(op_local(t["a"][1])) | {op_local(t["a"][1])}:
+                        continue
+                    recv = op_local(t["a"][0])
+                    for x in (parent.copy_chain(recv) | {recv}) if recv is not None else ():
+                        for d in parent.defs(x):
+                            if d["kind"] == "call" and (callee_of(d["term"]) or {}).get("name") == req["callee_name"]:
+                                return True, "inside the closure that Result::%s runs on the Ok value of %s()" % (c["name"], req["callee_name"])
         return False, "the site is no longer behind the Ok edge of %s()" % req["callee_name"]
     g = prog.funcs.get(req.get("func", ""))
     if g is None:
